@@ -117,6 +117,13 @@ def adjustMoisture (a : AdjIn) : Except Err (Vec × Vec × Bool) :=
         .ok (setAt a.n a.R a.k r', setAt a.n a.P a.k 0, true)
     else .ok (setAt a.n a.R a.k r, setAt a.n a.P a.k p, false)
 
+/-- `mix_and_split_with_moisture_content`: `mix_and_split(ins, retentate, permeate, split)` followed by
+`adjust_moisture_content(retentate, permeate, …)` -/
+def mixSplitMoisture (n : Nat) (ins : List Vec) (split MW : Vec) (k : Nat) (byMol : Bool) (mwc mc : Rat)
+    (strict : Option Bool) : Except Err (Vec × Vec × Bool) :=
+  adjustMoisture { n := n, R := (mixAndSplit n ins split).1, P := (mixAndSplit n ins split).2, MW := MW, k := k,
+                   byMol := byMol, mwc := mwc, mc := mc, strict := strict }
+
 /-- mass fraction of chemical `k` in stream `v` (0 for an empty stream) -/
 def massFrac (n : Nat) (MW v : Vec) (k : Nat) : Rat :=
   MW.at k * v.at k / sumL ((List.range n).map (fun i => MW.at i * v.at i))
@@ -226,6 +233,12 @@ def partition (p : PartIn) : Except Err PartOut := p.run (fun _ => 0)
 /-- `partition` as found: whatever the bottom stream held for a chemical that is not
 written stays there, and `top = feed − bottom` inherits it. -/
 def partitionAsIs (p : PartIn) : Except Err PartOut := p.run p.bot0.at
+
+/-- `partition_coefficients(IDs, top, bottom)` for the chemical `i ∈ IDs`: mole fraction in the top over mole
+fraction in the bottom, both normalised over `IDs` (the `1e-24` floor of the code is not modelled: the theorems
+assume a non-zero denominator) -/
+def achievedK (ids : List Nat) (top bottom : Vec) (i : Nat) : Rat :=
+  (top.at i / sumOver ids top.at) / (bottom.at i / sumOver ids bottom.at)
 
 /-- smallest relative distance of an un-clipped equilibrium bottom flow from the clip
 bounds `0` and `feed` (used by the driver to flag float-borderline cases) -/
